@@ -33,13 +33,35 @@ func ManageCanaryDeployment(client client.Client, daemonset *v1alpha1.ExtendedDa
 	// Populate list of unscheduled pods on nodes due to resource limitation
 	result.UnscheduledNodesDueToResourcesConstraints = manageUnscheduledPodNodes(params.UnscheduledPods)
 
-	// Cleanup Pods
-	err = cleanupPods(client, params.Logger, result.NewStatus, params.PodToCleanUp)
+	// Cleanup Pods: the canary replica set only cleans up on its canary nodes. All the other nodes are managed by
+	// the active replica set: judged against the canary template (e.g. a new nodeSelector), their pods would be deleted
+	// although the canary is not validated yet.
+	err = cleanupPods(client, params.Logger, result.NewStatus, podsOnNodes(params.PodToCleanUp, params.CanaryNodes))
 	if err != nil {
 		result.Result = requeuePromptly()
 	}
 
 	return result, nil
+}
+
+// podsOnNodes returns the pods that are assigned to one of the given nodes.
+func podsOnNodes(pods []*v1.Pod, nodeNames []string) []*v1.Pod {
+	var output []*v1.Pod
+	for _, pod := range pods {
+		podNodeName, err := podUtils.GetNodeNameFromPod(pod)
+		if err != nil {
+			continue
+		}
+		for _, nodeName := range nodeNames {
+			if nodeName == podNodeName {
+				output = append(output, pod)
+
+				break
+			}
+		}
+	}
+
+	return output
 }
 
 // manageCanaryStatus manages ReplicaSet status in Canary state.
